@@ -3,8 +3,9 @@ from lib import semcheck, progs
 from lib.semcheck import impl, model_expr, compare, oracle, describe, shrink, IMPORTS
 
 ID = 'C09'
-THEOREMS = []
-CASE_TIMEOUT = 20
+THEOREMS = ['C09_compiled_program_computes_reference', 'C09_builtin_extensional', 'C09_call_spec_compound', 'C09_call_spec_atom', 'C09_once_spec', 'C09_findall_spec', 'C09_findall_one_instance_per_answer', 'C09_findall_instances', 'C09_findall_at_most_once', 'C09_eq_spec', 'C09_neq_spec']
+CASE_TIMEOUT = 60
+MODEL_NEEDS_IMPL = True
 COQ_CHUNK = 20
 RULE = ('random programs whose bodies use call/1..N (extra arguments), once/1, findall/3, = and \\= with goals written inline or arriving '
         'through one or two bound variables, atoms or compound goals, with 0/1/many solutions, as first/middle/last goal, under \\+ and inside '
@@ -17,7 +18,7 @@ def gen(rng, tier):
     n = 240 if tier == 'quick' else 5000
     cases = []
     for _ in range(n):
-        o = progs.Opts(control=rng.random() < 0.5, cut=rng.random() < 0.2, opaque_cut=False, builtins=True)
+        o = progs.Opts(open_leaves=0.5 if rng.random() < 0.6 else 0.0, control=rng.random() < 0.5, cut=rng.random() < 0.2, opaque_cut=False, builtins=True)
         p = progs.gen_program(rng, o)
         cases.append({'clauses': p['clauses'], 'queries': p['queries']})
     return cases
